@@ -360,7 +360,19 @@ def olit_f(h):
 
 
 def nats(l):
-    return llit([nlit(v) for v in l])
+    """a list of indices as a Coq term; long lists as concatenated runs `seq a n ++ ...` (a literal list
+    of thousands of unary nat numerals is what makes a case file slow, not the evaluation)"""
+    l = list(l)
+    if len(l) <= 12:
+        return llit([nlit(v) for v in l])
+    runs, i = [], 0
+    while i < len(l):
+        j = i
+        while j + 1 < len(l) and l[j + 1] == l[j] + 1:
+            j += 1
+        runs.append("seq %s %s" % (nlit(l[i]), nlit(j - i + 1)))
+        i = j + 1
+    return "(" + " ++ ".join(runs) + ")"
 
 
 def sample_idx(a, n):
@@ -726,7 +738,16 @@ def gen_actions(ctx):
                          "omega": [float(2 * PI * k / n).hex() for k in range(n // 2 + 1)]})
     # ---- sizes far beyond the K range (the theorems cover them; the tie must sample them too)
     kmax = 10 ** 9     # every large case is evaluated in Coq too, on a sample of its entries (CSparse)
-    pool = LARGE if not ctx.quick else sorted(set([1025, 2049, 4097, 8193] + rng.sample(LARGE, 7)))
+    pool = LARGE if not ctx.quick else sorted(set([1025, 2049, 4097] + rng.sample(LARGE, 4)))
+    core_sites = {"S_periodogram", "S_pcsd", "S_mt_psd", "S_gs_welch", "S_cache_fft", "U_get_freqs", "A_Spec_periodogram",
+                  "A_MTCoh", "A_Granger", "A_SparseCoh", "A_Spec_fourier_complex"}
+    grid_all = grid
+
+    def grid(site, *args, **kw):      # quick tier: above 2100 only one case per distinct grid expression
+        if ctx.quick and args[1] > 2100 and site not in core_sites:
+            return None
+        return grid_all(site, *args, **kw)
+
     for n in pool:
         big = {"nok": n > kmax, "large": True}
         for sides in ("OneSided", "TwoSided"):
